@@ -74,6 +74,10 @@ func (e *E3) lenObligation(f *ssa.Function, fb *fnBnd, b *ssa.BasicBlock, idx te
 		if e.ProveLE(b, idx, zeroT, n+c) {
 			return true, fmt.Sprintf("≤ %d (constant length %d)", n+c, n)
 		}
+		// k1·x1 + k2·x2 + C with every leaf bounded at this block (8*j + i under j < 8, i < 8)
+		if ub, ok := e.affUpperAt(b, idx); ok && ub <= n+c {
+			return true, fmt.Sprintf("≤ %d ≤ %d by the bounds of its terms at this point (constant length %d)", ub, n+c, n)
+		}
 		return false, fmt.Sprintf("cannot show %s ≤ %d (length %d)", idx, n+c, n)
 	}
 	if e.ProveLE(b, idx, lt, c) {
@@ -125,6 +129,49 @@ func (e *E3) lenObligation(f *ssa.Function, fb *fnBnd, b *ssa.BasicBlock, idx te
 		}
 	}
 	return false, fmt.Sprintf("cannot show %s ≤ %s%+d", idx, lt, c)
+}
+
+// affUpperAt: an upper bound of the (64-bit, wrap-free) affine form of idx from the bounds that the branch
+// conditions dominating block b put on each of its leaves: Σ k·ub(x) for k > 0, Σ k·lb(x) for k < 0.
+func (e *E3) affUpperAt(b *ssa.BasicBlock, idx termT) (int64, bool) {
+	if idx.v == nil || idx.len {
+		return 0, false
+	}
+	a := affineWide(idx.v)
+	if a == nil || len(a.Terms) == 0 || (len(a.Terms) == 1 && a.C == 0) {
+		return 0, false
+	}
+	sum := a.C
+	for k, cf := range a.Terms {
+		v, ok := k.(ssa.Value)
+		if !ok || cf == 0 {
+			return 0, false
+		}
+		t := e.termOf(v)
+		g := e.newGraph(b)
+		g.nodes[zeroT] = true
+		g.touch(t, 0)
+		g.condFacts()
+		var bound int64
+		if cf > 0 {
+			ub := g.shortest(zeroT, t) // x ≤ ub
+			if ub >= inf {
+				return 0, false
+			}
+			bound = mulSat(ub, cf)
+		} else {
+			nlb := g.shortest(t, zeroT) // −x ≤ nlb
+			if nlb >= inf {
+				return 0, false
+			}
+			bound = mulSat(nlb, -cf)
+		}
+		sum = addSat(sum, bound)
+		if sum >= inf {
+			return 0, false
+		}
+	}
+	return sum, true
 }
 
 // lenAsValue finds an SSA integer value n with LEN(base) == n (make / verified contract under nil error).
